@@ -215,14 +215,20 @@ func c11ColdStart(c *core.Ctx, G int) {
 		}
 		switch g % 3 {
 		case 0:
-			return job{"Var", func() string { return normErr(drive.Call(func() error { return valid.Var("abcdef", "to=1~3|m_v", "phone|m_p") })) }}
+			return job{"Var", func() string {
+				return normErr(drive.Call(func() error { return valid.Var("abcdef", "to=1~3|m_v", "phone|m_p") }))
+			}}
 		case 1:
 			return job{"Map", func() string {
-				return normErr(drive.Call(func() error { return valid.Map(map[string]string{"a": "", "b": "xx"}, valid.RM{"a": "required|m_a", "b": "int|m_b"}) }))
+				return normErr(drive.Call(func() error {
+					return valid.Map(map[string]string{"a": "", "b": "xx"}, valid.RM{"a": "required|m_a", "b": "int|m_b"})
+				}))
 			}}
 		}
 		return job{"Url", func() string {
-			return normErr(drive.Call(func() error { return valid.Url("http://h.example/p?a=&b=xx", valid.RM{"a": "required|m_a", "b": "int|m_b"}) }))
+			return normErr(drive.Call(func() error {
+				return valid.Url("http://h.example/p?a=&b=xx", valid.RM{"a": "required|m_a", "b": "int|m_b"})
+			}))
 		}}
 	}
 	jobs := make([]job, G)
